@@ -124,10 +124,12 @@ def gen_case(rng, focus: str | None = None) -> dict:
         # rejected — a defect of schema promotion, reported as F03d / C02 territory, not modelled here): keep one.
         seen_enum_classes: set[str] = set()
         for p in props:
-            if isinstance(p["schema"], list) and p["schema"][0] == "enum":
+            promoted = isinstance(p["schema"], list) and (p["schema"][0] in ("enum", "map")
+                                                          or (p["schema"][0] == "ref" and p["nullable"]))
+            if promoted:          # inline enums, inline maps and nullable $refs are all promoted under that name
                 cn = enum_class_name(p["name"])
                 if cn in seen_enum_classes:
-                    p["schema"] = "int"
+                    p["schema"], p["nullable"] = "int", False
                 seen_enum_classes.add(cn)
         schemas.append({"id": sid, "name": f"M{sid}", "props": props})
     docs = []
